@@ -41,6 +41,7 @@ int mc_main(int argc, char **argv, struct mc_harness *h);
 extern int mc_tier;             /* 0 quick, 1 thorough */
 extern int mc_shard, mc_nshards;
 extern int mc_replaying;
+extern const char *mc_phase;    /* set by harnesses before risky calls: appended to crash signatures */
 extern int mc_verbose;
 
 /* every case (execution / explored state / input) is announced; returns 1 when
